@@ -7,6 +7,24 @@ import vlib
 LEVEL = "proof"
 
 THEOREMS = [
+    "Mpc.C07_adder",
+    "Mpc.C07_sub_partial",
+    "Mpc.C07_sub_wide_wrong",
+    "Mpc.C07_ucmp",
+    "Mpc.C07_intCmp_partial",
+    "Mpc.C07_intCmp_equal_width",
+    "Mpc.C07_intCmp_unequal_wrong",
+    "Mpc.C07_eq",
+    "Mpc.C07_neq",
+    "Mpc.C07_mux",
+    "Mpc.C07_band",
+    "Mpc.C07_bor",
+    "Mpc.C07_bxor",
+    "Mpc.C07_bclr",
+    "Mpc.C07_logical",
+    "Mpc.C07_bittest",
+    "Mpc.C07_arrayMult_partial_small",
+    "Mpc.C07_arrayMult_wide_wrong",
 ]
 
 # builder called per SSA opcode in compiler/ssa/circuitgen.go (T2)
